@@ -183,6 +183,11 @@ def generate(tape, tier="quick"):
         return gen_wsum(tape)
     sc = gen_e1(tape, tier, allow_cycles=tape.chance(1, 3), allow_integrating=False)
     sc["family"] = "P"
+    for ci, c in enumerate(sc["components"]):
+        if c["kind"] == "pull" and "impl" not in c:
+            outl = [l for l in sc["links"] if l["src"][0] == ci]
+            if outl and not any(a["kind"].startswith("delay") for l in outl for a in l["chain"]) and tape.chance(3, 4):
+                c["out_time"] = "unset"
     return sc
 
 
@@ -192,6 +197,17 @@ def provider_oracles(sc, r, viol):
     names = {c["name"] for c in sc["components"] if c["kind"] == "pull"}
     n = 0
     for i, e in enumerate(ev):
+        if e[0] == "PROVIDER_CONNECT":
+            # also while connecting (initial pulls for the composition's start) the provider sees the requested time
+            for j in range(i - 1, -1, -1):
+                x = ev[j]
+                if x[0] == "GET" and x[1] == f"{e[1]}.{e[2]}":
+                    if x[2] != e[3]:
+                        viol.append({"oracle": "provider-time", "kind": "connect-time", "comp": "",
+                                     "msg": f"provider of {e[1]}.{e[2]} invoked for {e[3]} while connecting but the output "
+                                            f"was asked for {x[2]}"})
+                    break
+            continue
         if e[0] != "PROVIDER":
             continue
         n += 1
